@@ -52,6 +52,22 @@ def run_instance(name, invariants=ALL_INV, properties=("ReadOnly",), dump=True, 
     return r, g
 
 
+def _layout(a, k):
+    """the same values as a strided view, in Fortran order, or as they are"""
+    form = k % 4
+    if form == 1 and a.ndim >= 2 and a.shape[-1] > 1:
+        big = np.zeros(a.shape[:-1] + (2 * a.shape[-1],), dtype=a.dtype)
+        big[..., ::2] = a
+        return big[..., ::2]
+    if form == 2 and len(a) > 1:
+        big = np.zeros((2 * len(a),) + a.shape[1:], dtype=a.dtype)
+        big[::2] = a
+        return big[::2]
+    if form == 3 and a.ndim >= 2:
+        return np.asfortranarray(a)
+    return a
+
+
 def quiescent(s):
     return s['pc'].get('op') == 'idle'
 
@@ -177,6 +193,9 @@ class Session:
             else:
                 items = [self.cfg.rows_array(tuple(r for r in it for _ in range(self.rc.block))).astype(self.cfg.dtype)
                          for it in ref]
+                # the subarrays handed to asraggedarray come in several memory layouts (same values)
+                self.nlay = getattr(self, 'nlay', self.cfg.rowbytes + len(ref)) + 1
+                items = [_layout(x, self.nlay + k) for k, x in enumerate(items)]
                 self.ra = self.darr.asraggedarray(self.path, items, dtype=self.cfg.dtype,
                                                   accessmode=cmode if uctx else st['mode'], indextype=self.rc.indextype)
             if uctx:
@@ -250,9 +269,12 @@ class Session:
             return np.ones((r,) + t[:-1] + (t[-1] + 1,), dtype=self.cfg.numtype)
         if kind == 'rank':
             if t == ():
-                return np.ones((r, 1, 1), dtype=self.cfg.numtype)
+                # a bare number or 0-d array is not a subarray of a ragged array of scalars either
+                return [np.ones((r, 1, 1), dtype=self.cfg.numtype), 5, np.array(4.0), np.float32(2)][self.nbadrows % 4]
             return np.ones((max(r, 1),) + t + (1,), dtype=self.cfg.numtype)
         if kind == 'conv':
+            if self.nbadrows % 3 == 0:
+                return None
             return ['not a number'] if t == () else 'abc'
         raise ValueError(kind)
 
